@@ -1127,6 +1127,10 @@ fn run_seq_m<T: Payload>(cap: Option<usize>, actor: bool, choices: &[usize], st:
         let c = en[ch];
         w.step = k;
         w.trace.push(format!("{:?}", c));
+        BEAT.fetch_add(1, std::sync::atomic::Ordering::Relaxed);
+        if let Ok(mut l) = CUR_CALL.lock() {
+            *l = (k, format!("{:?}", c));
+        }
         if std::env::var_os("SEQDIFF_VERBOSE").is_some() {
             eprintln!("  {:3} {:?}", k, c);
         }
@@ -1159,7 +1163,17 @@ fn run_seq_m<T: Payload>(cap: Option<usize>, actor: bool, choices: &[usize], st:
     Outcome { radix, err: err.map(|e| (e, tr)), resolved }
 }
 
+/// progress beacon: bumped before every call of every sequence; a watchdog thread turns a call that does not
+/// return (nobody else exists who could complete it) into a report instead of a silent hang
+static BEAT: std::sync::atomic::AtomicU64 = std::sync::atomic::AtomicU64::new(0);
+static LAST_CASE: std::sync::Mutex<String> = std::sync::Mutex::new(String::new());
+static CUR_CALL: std::sync::Mutex<(usize, String)> = std::sync::Mutex::new((0, String::new()));
+
 fn write_case(path: &Option<String>, s: &str) {
+    if let Ok(mut l) = LAST_CASE.lock() {
+        l.clear();
+        l.push_str(s);
+    }
     if let Some(p) = path {
         use std::os::unix::fs::FileExt;
         thread_local! {static F: std::cell::RefCell<Option<std::fs::File>> = const { std::cell::RefCell::new(None) };}
@@ -1219,6 +1233,24 @@ fn main() {
     let caps_arg = kverif::arg_str(&a, "caps", "0,1,2,u").to_string();
     let caps: Vec<Option<usize>> = caps_arg.split(',').map(parse_cap).collect();
     std::panic::set_hook(Box::new(|_| {}));
+    if !cfg!(miri) {
+        let grace = std::time::Duration::from_millis(kverif::arg_u64(&a, "grace-ms", 20_000));
+        std::thread::spawn(move || {
+            let mut last = (u64::MAX, std::time::Instant::now());
+            loop {
+                std::thread::sleep(std::time::Duration::from_millis(200));
+                let b = BEAT.load(std::sync::atomic::Ordering::Relaxed);
+                if b != last.0 {
+                    last = (b, std::time::Instant::now());
+                } else if b != 0 && last.1.elapsed() > grace {
+                    let case = LAST_CASE.lock().map(|l| l.trim().to_string()).unwrap_or_default();
+                    let (k, call) = CUR_CALL.lock().map(|l| l.clone()).unwrap_or_default();
+                    println!("{}", J::O(vec![("engine".into(), J::s("seqdiff")), ("hang".into(), J::B(true)), ("step".into(), J::U(k as u64)), ("call".into(), J::s(call)), ("case".into(), J::s(case))]).to_string());
+                    std::process::exit(87);
+                }
+            }
+        });
+    }
     payload::init(if cfg!(miri) { 1 << 10 } else { 1 << 12 });
     kverif::fp::install();
     let hits0 = kverif::fp::hits();
